@@ -348,7 +348,15 @@ class AsyncFIXConnection:
                     if decoded_msg is None:
                         break
 
-                    await self._process_message(decoded_msg, raw_msg)
+                    try:
+                        await self._process_message(decoded_msg, raw_msg)
+                    except (asyncio.CancelledError, OSError):
+                        raise
+                    except Exception:
+                        # a message the session layer cannot handle is dropped alone,
+                        #  the complete frames behind it in the buffer are not held
+                        #  back until the next read
+                        self.log.exception("socket_read_task: message dropped")
             except asyncio.CancelledError:
                 return
             except OSError as why:
